@@ -828,11 +828,15 @@ def _embed(outer, inner, use_varargs=True, use_varkwargs=True, depth=1):
     _check_no_dupes(names, i_kwoargs.values())
     e_kwoargs.update(i_kwoargs)
 
-    src = dict(i_src, **o_src)
+    # the forwarded star parameters of outer disappear; drop their sources
+    # before combining the maps, so that an inner star parameter of the
+    # same name keeps its own
+    o_named_src = dict(o_src)
     if o_varargs and use_varargs:
-        src.pop(o_varargs.name, None)
+        o_named_src.pop(o_varargs.name, None)
     if o_varkwargs and use_varkwargs:
-        src.pop(o_varkwargs.name, None)
+        o_named_src.pop(o_varkwargs.name, None)
+    src = dict(i_src, **o_named_src)
 
     src['+depths'] = merge_depths(
         o_src.get('+depths', {}),
